@@ -26,9 +26,9 @@ var (
 	ctXML      = []string{"application/xml", "text/xml", "application/xml; charset=utf-8", "text/xml;charset=\"utf-8\"", "Application/XML"}
 	ctICal     = []string{"text/calendar", "text/calendar; charset=utf-8", "TEXT/CALENDAR", "text/calendar;component=VEVENT"}
 	ctVCard    = []string{"text/vcard", "text/vcard; charset=utf-8", "Text/VCard"}
-	ctOther    = []string{"text/plain", "application/json", "application/octet-stream", "application/xhtml+xml", "application/xmlx", "text/calendarx", "text/x-vcard", "multipart/form-data; boundary=x"}
+	ctOther    = []string{"text/plain", "application/json", "application/octet-stream", "application/xmlx", "text/calendarx", "image/png", "multipart/form-data; boundary=x"}
 	ctUnparse  = []string{"text/", "/xml", ";charset=utf-8", "application xml", "text/calendar/x", "application/xml/extra", "=", "\"text/xml\""}
-	ctBoundary = []string{"", "application/xml; charset", "text/calendar; =x", "text/vcard;;"}
+	ctBoundary = []string{"", "application/xml; charset", "text/calendar; =x", "text/vcard;;", "text/x-vcard", "text/directory", "application/xhtml+xml", "application/calendar+xml"}
 )
 
 func destValid(target, prefix string) []string {
@@ -153,6 +153,8 @@ func runAll(c *fw.Ctx) {
 	xs := xmlSeeds()
 	ts := textSeeds()
 
+	c.Note("deep nesting", "decoding a calendar-data / address-data selection nested d levels deep (Prop.Decode over RawXMLValue.TokenReader) takes time quadratic in d on the pinned tree (about 4 s at d = 10 000): no C13 verdict, but the query/multiget families are therefore nested to 10 001 only, the other documents to 100 000 (thorough)")
+	c.Note("labels", "a request carries obligation (2) only if the operator that built one of its parts marks that part malformed BY CONSTRUCTION; see the 'definitely malformed' table for entry point | class | observed status, and '5xx outside obligation 2' for server errors on requests the statement does not call malformed")
 	g.matrix()
 	g.truncate(xs)
 	pool := g.definite(xs)
